@@ -60,6 +60,11 @@ def translate(line):
     for gid, es in by_gid.items():
         k = _kind([e["n"] for e in es])
         if k:
+            # a cancellation the driver issued from inside an engine hook is still the caller's step
+            for e in es:
+                if e["n"] == "cancel":
+                    caller.setdefault(e["q"], []).append(e)
+            es = [e for e in es if e["n"] != "cancel"]
             qs = {e["q"] for e in es if e["q"]}
             if len(qs) != 1:
                 raise Untranslatable("goroutine %d serves %s queries" % (gid, sorted(qs)))
@@ -162,6 +167,7 @@ def translate(line):
             group = False
             cur_f = 0
             over = None           # (i, lo) of a pass that ended and awaits its h.put
+            opened_at = None      # stamp of the h.open whose first read has not been seen yet
             while i < len(es):
                 e = es[i]
                 g, n = e["g"], e["n"]
@@ -176,7 +182,14 @@ def translate(line):
                 lo = start if group else prev
                 group = False
                 if n == "h.open":
-                    pend_open = g
+                    # the open itself follows this hook; its outcome is what the next step of the worker says. The step
+                    # keeps its place in the worker's program order (an open taken before the slot must not be moved behind it)
+                    nxt = next((x for x in es[i + 1:] if x["n"] not in ("h.retain", "h.release")), None)
+                    if nxt is not None and nxt["n"] == "fw.open.fail":
+                        pend_open = g
+                    else:
+                        rs.append(rec("FWOpenNew", q, g, nxt["g"] if nxt else None, w=w, f=f))
+                        opened_at = g
                 elif n == "h.borrow":
                     rs.append(rec("FWBorrow", q, lo, g, w=w, f=f))
                     rs.append(rec("FWReadOk", q, lo, None, w=w, f=f))
@@ -203,13 +216,10 @@ def translate(line):
                     pend_open = None
                     rs.append(rec("FWOpenFail", q, lo2, g, w=w, f=f))
                 elif n.startswith("fw.eval."):
-                    if pend_open is not None:
-                        lo = pend_open
-                        first_read_failed = n == "fw.eval.readfail" and e["a"] == 0
-                        rs.append(rec("FWOpenNew", q, lo, g, w=w, f=f))
-                        if not first_read_failed:
-                            rs.append(rec("FWReadOk", q, lo, g, w=w, f=f))
-                        pend_open = None
+                    if opened_at is not None:
+                        if not (n == "fw.eval.readfail" and e["a"] == 0):
+                            rs.append(rec("FWReadOk", q, opened_at, g, w=w, f=f))
+                        opened_at = None
                     b = e["a"] + 1
                     if n == "fw.eval.survived":
                         rs.append(rec("FWEvalSurv", q, lo, g, w=w, f=f, b=b))
@@ -271,7 +281,11 @@ def translate(line):
                         rs.append(rec("BWDone", q, lo, g, w=w, f=cur["f"]))
                     cur = None
                 elif n == "h.open":
-                    pend_open = g
+                    nxt = es[j + 1] if j + 1 < len(es) else None
+                    if nxt is not None and nxt["n"] == "bw.open.fail":
+                        pend_open = g
+                    else:
+                        rs.append(rec("BWOpenNew", q, g, nxt["g"] if nxt else None, w=w, f=cur["f"]))
                     prev = g
                     continue
                 elif n == "h.borrow":
@@ -281,20 +295,12 @@ def translate(line):
                     pend_open = None
                     cur["ended"] = True
                 elif n == "h.put":
-                    if pend_open is not None:
-                        rs.append(rec("BWOpenNew", q, pend_open, g, w=w, f=cur["f"]))
-                        lo = pend_open
-                        pend_open = None
                     put = (e["a"], lo)
                 elif n == "bw.read.ok":
                     cur["readok"] = len(rs)
                     rs.append(rec("BWReadOk", q, put[1], g, w=w, f=cur["f"], b=0, x=put[0]))
                     put = None
                 elif n == "bw.read.fail":
-                    if pend_open is not None:
-                        rs.append(rec("BWOpenNew", q, pend_open, g, w=w, f=cur["f"]))
-                        lo = pend_open
-                        pend_open = None
                     rs.append(rec("BWReadFail", q, lo, g, w=w, f=cur["f"]))
                     cur["ended"] = True
                 elif n == "bw.deliver.fast":
